@@ -212,6 +212,10 @@ pub struct Model {
     pub evals: BTreeMap<&'static str, u64>,
     /// client ids whose records are attributed to C14 (the well-behaved pair)
     pub guarded_clients: BTreeSet<String>,
+    /// small-retention configuration: a slow subscriber may legitimately lose evicted messages, so gaps
+    /// and incomplete streams are tolerated (everything else is still judged)
+    pub lossy: bool,
+    pub gaps_tolerated: u64,
 }
 
 pub struct Closed {
@@ -244,6 +248,8 @@ impl Model {
             pkid_reuse_before_pubcomp: 0,
             evals: BTreeMap::new(),
             guarded_clients: BTreeSet::new(),
+            lossy: false,
+            gaps_tolerated: 0,
         }
     }
 
@@ -1260,6 +1266,32 @@ impl Model {
             return;
         }
 
+        // ---- small retention: the stream may jump forward over evicted messages (never backward)
+        if self.lossy && shared.is_empty() {
+            if let Some(mi) = midx {
+                let ahead: Vec<usize> = cands
+                    .iter()
+                    .copied()
+                    .filter(|i| {
+                        let s = &self.sessions[&client].subs[*i];
+                        s.group.is_none() && s.closed_at.is_none() && mi >= s.next && mi >= s.effect_idx && (s.qos == p.qos || s.resubscribed_qos_changed)
+                    })
+                    .collect();
+                if ahead.len() == 1 {
+                    let s = &mut self.sessions.get_mut(&client).unwrap().subs[ahead[0]];
+                    s.next = mi + 1;
+                    s.observed += 1;
+                    s.retained_open = false;
+                    let path = s.path.clone();
+                    self.gaps_tolerated += 1;
+                    push_out(self, Some(path), Some(mi), false);
+                    return;
+                } else if ahead.len() > 1 {
+                    self.conns[conn].ambiguous = true;
+                }
+            }
+        }
+
         // ---- nothing expects it: diagnose
         push_out(self, None, midx, false);
         if self.conns[conn].ambiguous {
@@ -1425,6 +1457,9 @@ impl Model {
             for s in subs.iter().filter(|s| s.closed_at.is_none() && s.group.is_none()) {
                 self.eval("stream-complete");
                 if self.conns[conn].ambiguous {
+                    continue;
+                }
+                if self.lossy {
                     continue;
                 }
                 if let Some(e) = self.next_expected(s) {
